@@ -29,14 +29,14 @@ POOLS = {
 
 # which TLC configurations serve which property, per tier
 CONFIGS = {
-    "C01": dict(quick=["Layout_pair_quick"], thorough=["Layout_pair_thorough"], targets=["LAMMPS"]),
-    "C02": dict(quick=["Layout_pair_quick"], thorough=["Layout_pair_thorough"], targets=["DLPOLY"]),
+    "C01": dict(quick=["Layout_pair_quick", "Layout_pair_big"], thorough=["Layout_pair_thorough", "Layout_pair_big"], targets=["LAMMPS"]),
+    "C02": dict(quick=["Layout_pair_quick", "Layout_pair_big"], thorough=["Layout_pair_thorough", "Layout_pair_big"], targets=["DLPOLY"]),
     "C03": dict(quick=["Layout_eam_quick"], thorough=["Layout_eam_thorough"], targets=["setfl"]),
     "C04": dict(quick=["Layout_fs_quick"], thorough=["Layout_fs_thorough"], targets=["setfl_fs", "DL_POLY_EAM_fs", "excel_eam_fs"]),
     "C05": dict(quick=["Layout_eam_quick", "Layout_fs_quick"], thorough=["Layout_eam_thorough", "Layout_fs_thorough"],
                 targets=["DL_POLY_EAM", "DL_POLY_EAM_fs"]),
-    "C19": dict(quick=["Layout_pair_quick", "Layout_eam_quick", "Layout_fs_quick", "Layout_adp_quick", "Layout_funcfl"],
-                thorough=["Layout_pair_thorough", "Layout_eam_thorough", "Layout_fs_thorough", "Layout_adp_thorough", "Layout_funcfl"],
+    "C19": dict(quick=["Layout_pair_quick", "Layout_pair_big", "Layout_eam_quick", "Layout_fs_quick", "Layout_adp_quick", "Layout_funcfl"],
+                thorough=["Layout_pair_thorough", "Layout_pair_big", "Layout_eam_thorough", "Layout_fs_thorough", "Layout_adp_thorough", "Layout_funcfl"],
                 targets=["GULP", "excel", "excel_eam", "excel_eam_fs", "eam_adp", "funcfl"]),
 }
 
@@ -66,8 +66,9 @@ H = 1e-6   # Potential's numerical differentiation step
 class Ctx(object):
     """Concrete rendering choices for one abstract case: labels, grid, probe flavour, metadata source."""
 
-    def __init__(self, case, idx, seed=0):
+    def __init__(self, case, idx, seed=0, variant=0):
         self.case = case
+        self.variant = variant
         self.m = m = case["m"]
         self.plan = case["plan"]
         self.idx = idx
@@ -85,6 +86,8 @@ class Ctx(object):
         if m["tgt"] == "DLPOLY":
             cuts = [F(max(nr - 4, 1), 4), F(13, 2), F(10)]
         self.cutoff = cuts[idx % 3]
+        if nr >= 1000:      # fine grids: decimal cutoffs whose accumulated rounding differs (one job per variant)
+            self.cutoff = [F(13, 2), F(10), F(12), F(15), F(20)][variant % 5]
         self.cutoff_rho = [F(max(nrho - 1, 1), 2), F(3), F(100)][(idx // 3) % 3] if nrho else F(100)
         self.flavour = ["analytic", "numeric"][(idx // 2) % 2] if fam == "pair" else "analytic"
         self.rev = (idx // 5) % 2 == 1        # reverse the order of density / pair entries in the .ini file
@@ -146,11 +149,13 @@ class PyFn(object):
         self.poly = poly
         self.counter = counter
         self.tag = tag
+        self.zero = poly.is_zero()      # zero functions cannot fail: they are not counted as evaluations
         if analytic:
             d1 = poly.deriv()
             d2 = d1.deriv()
 
             def deriv(r, _d=d1):
+                self.counter.tick(self.tag + " deriv", r)
                 return _d.fl(r)
 
             def deriv2(r, _d=d2):
@@ -159,7 +164,8 @@ class PyFn(object):
             self.deriv2 = deriv2
 
     def __call__(self, r):
-        self.counter.tick(self.tag, r)
+        if not self.zero:
+            self.counter.tick(self.tag, r)
         return self.poly.fl(r)
 
 
@@ -199,34 +205,43 @@ def species_meta(ctx, rank):
     return (z, mass, F(0), "fcc"), lines      # documented defaults 0.0 / fcc
 
 
-def ini_poly(p, flavour="analytic", form="pf"):
+def ini_poly(p, flavour="analytic", form="pf", lim=None):
     if p.is_zero():
         return ">=0 as.zero"
     c = coeffs_int(p)
+    if lim is not None:       # C17: the formula leaves its domain (sqrt of a negative number) for r > lim
+        return ">=0 pfbad %s %s" % (" ".join(str(x) for x in c), dec(lim))
     if flavour == "numeric":
         return ">=0 %s %s" % (form, " ".join(str(x) for x in c))
     return ">=0 as.polynomial %s" % " ".join(str(x) for x in c)
 
 
-def render_ini(ctx, target_spelling=None):
+def render_ini(ctx, target_spelling=None, bad=None):
+    """bad: None or (fn record, lim): that function fails (math domain error) at every abscissa > lim"""
     m = ctx.m
+
+    def IP(fn, flavour="analytic"):
+        if bad is not None and fnkey(fn) == fnkey(bad[0]):
+            return ini_poly(probe(fn), flavour, lim=bad[1])
+        return ini_poly(probe(fn), flavour)
     tgt = target_spelling or m["tgt"]
     L = ctx.L
     out = ["[Tabulation]", "target : %s" % tgt, "nr : %d" % m["nr"], "cutoff : %s" % dec(ctx.cutoff)]
     if m["nrho"]:
         out += ["nrho : %d" % m["nrho"], "cutoff_rho : %s" % dec(ctx.cutoff_rho)]
     out.append("")
-    if ctx.flavour == "numeric":
-        out += ["[Potential-Form]", "pf(r, a, b, c) = a + b*r + c*r^2", ""]
-    pairs = ["%s-%s : %s" % (L(a), L(b), ini_poly(probe(pair_fn(a, b)), ctx.flavour)) for a, b in m["pots"]]
+    if ctx.flavour == "numeric" or bad is not None:
+        out += ["[Potential-Form]", "pf(r, a, b, c) = a + b*r + c*r^2",
+                "pfbad(r, a, b, c, lim) = a + b*r + c*r^2 + (pymath.sqrt(lim - r) - pymath.sqrt(lim - r))", ""]
+    pairs = ["%s-%s : %s" % (L(a), L(b), IP(pair_fn(a, b), ctx.flavour)) for a, b in m["pots"]]
     if ctx.rev:
         pairs.reverse()
     if m["fam"] != "pair":
-        emb = ["%s : %s" % (L(a), ini_poly(probe(dict(f="embed", s=a, t=0)))) for a in m["els"] if a in m["embedDecl"]]
+        emb = ["%s : %s" % (L(a), IP(dict(f="embed", s=a, t=0))) for a in m["els"] if a in m["embedDecl"]]
         if m["fam"] == "fs":
-            dens = ["%s->%s : %s" % (L(a), L(b), ini_poly(probe(dict(f="dens", s=a, t=b)))) for a, b in m["densDecl"]]
+            dens = ["%s->%s : %s" % (L(a), L(b), IP(dict(f="dens", s=a, t=b))) for a, b in m["densDecl"]]
         else:
-            dens = ["%s : %s" % (L(a), ini_poly(probe(dict(f="dens", s=a, t=0)))) for a, _ in m["densDecl"]]
+            dens = ["%s : %s" % (L(a), IP(dict(f="dens", s=a, t=0))) for a, _ in m["densDecl"]]
         if ctx.rev:
             dens.reverse()
         sec = [["[EAM-Embed]"] + emb + [""], ["[EAM-Density]"] + dens + [""], ["[Pair]"] + pairs + [""]]
@@ -235,8 +250,8 @@ def render_ini(ctx, target_spelling=None):
         for s in sec:
             out += s
         if m["fam"] == "adp":
-            dip = ["%s-%s : %s" % (L(a), L(b), ini_poly(probe(pair_fn(a, b, "dip")))) for a, b in m["dip"]]
-            quad = ["%s-%s : %s" % (L(a), L(b), ini_poly(probe(pair_fn(a, b, "quad")))) for a, b in m["quad"]]
+            dip = ["%s-%s : %s" % (L(a), L(b), IP(pair_fn(a, b, "dip"))) for a, b in m["dip"]]
+            quad = ["%s-%s : %s" % (L(a), L(b), IP(pair_fn(a, b, "quad"))) for a, b in m["quad"]]
             out += ["[EAM-ADP-Dipole]"] + dip + ["", "[EAM-ADP-Quadrupole]"] + quad + [""]
         sp = []
         for a in m["els"]:
@@ -318,7 +333,34 @@ def run_cli(args):
     return status, so.getvalue(), se.getvalue()
 
 
-def execute(ctx, route, fail_at=0, spelling=None, workdir=None):
+def make_writer(ctx, route, counter):
+    """Python-API routes: build the objects once, return write(sink) (may be called repeatedly on the same objects)"""
+    m = ctx.m
+    tgt = m["tgt"]
+    pots, eams, dips, quads = build_objects(ctx, counter)
+    cutoff, nr = float(ctx.cutoff), m["nr"]
+    if route == "wp":
+        return lambda sink: P.writePotentials(WP_NAME[tgt], pots, cutoff, nr, sink)
+    if route == "func":
+        nrho = m["nrho"]
+        dr, drho = cutoff / float(nr - 1), float(ctx.cutoff_rho) / float(nrho - 1)
+        f = {"setfl": lambda sink: P.writeSetFL(nrho, drho, nr, dr, eams, pots, sink, ["c1", "c2", "c3"]),
+             "setfl_fs": lambda sink: P.writeSetFLFinnisSinclair(nrho, drho, nr, dr, eams, pots, sink, ["c1", "c2", "c3"]),
+             "DL_POLY_EAM": lambda sink: P.writeTABEAM(nrho, drho, nr, dr, eams, pots, sink, "title"),
+             "DL_POLY_EAM_fs": lambda sink: P.writeTABEAMFinnisSinclair(nrho, drho, nr, dr, eams, pots, sink, "title"),
+             "funcfl": lambda sink: P.writeFuncFL(nrho, drho, nr, dr, eams, pots, sink, "title")}
+        return f[tgt]
+    cls = CLASSES[tgt]
+    if m["fam"] == "pair":
+        tab = cls(pots, cutoff, nr)
+    elif tgt == "eam_adp":
+        tab = cls(pots, eams, dips, quads, cutoff, nr, float(ctx.cutoff_rho), m["nrho"])
+    else:
+        tab = cls(pots, eams, cutoff, nr, float(ctx.cutoff_rho), m["nrho"])
+    return tab.write
+
+
+def execute(ctx, route, fail_at=0, spelling=None, workdir=None, bad=None, preexisting=None):
     """Run the implementation on the case. Returns dict(outcome='ok'|'raised', exc=..., data=bytes/str, evals=int, sink=Sink)"""
     m = ctx.m
     tgt = m["tgt"]
@@ -328,47 +370,25 @@ def execute(ctx, route, fail_at=0, spelling=None, workdir=None):
     res = dict(outcome="ok", exc=None, data=None, evals=0, writes=0, route=route)
     try:
         if route in ("class", "wp", "func"):
-            pots, eams, dips, quads = build_objects(ctx, counter)
-            cutoff, nr = float(ctx.cutoff), m["nr"]
-            if route == "wp":
-                P.writePotentials(WP_NAME[tgt], pots, cutoff, nr, sink)
-            elif route == "func":
-                nrho = m["nrho"]
-                dr, drho = cutoff / float(nr - 1), float(ctx.cutoff_rho) / float(nrho - 1)
-                if tgt == "setfl":
-                    P.writeSetFL(nrho, drho, nr, dr, eams, pots, sink, ["c1", "c2", "c3"])
-                elif tgt == "setfl_fs":
-                    P.writeSetFLFinnisSinclair(nrho, drho, nr, dr, eams, pots, sink, ["c1", "c2", "c3"])
-                elif tgt == "DL_POLY_EAM":
-                    P.writeTABEAM(nrho, drho, nr, dr, eams, pots, sink, "title")
-                elif tgt == "DL_POLY_EAM_fs":
-                    P.writeTABEAMFinnisSinclair(nrho, drho, nr, dr, eams, pots, sink, "title")
-                elif tgt == "funcfl":
-                    P.writeFuncFL(nrho, drho, nr, dr, eams, pots, sink, "title")
-            else:
-                cls = CLASSES[tgt]
-                if m["fam"] == "pair":
-                    tab = cls(pots, cutoff, nr)
-                elif tgt == "eam_adp":
-                    tab = cls(pots, eams, dips, quads, cutoff, nr, float(ctx.cutoff_rho), m["nrho"])
-                else:
-                    tab = cls(pots, eams, cutoff, nr, float(ctx.cutoff_rho), m["nrho"])
-                tab.write(sink)
+            make_writer(ctx, route, counter)(sink)
             res["data"] = sink.value()
         elif route == "ini":
-            text = render_ini(ctx, spelling)
+            text = render_ini(ctx, spelling, bad)
             res["ini"] = text
             tab = Configuration().read(io.StringIO(text))
             tab.write(sink)
             res["data"] = sink.value()
         elif route == "cli":
-            text = render_ini(ctx, spelling)
+            text = render_ini(ctx, spelling, bad)
             res["ini"] = text
             d = workdir or tempfile.mkdtemp(prefix="verif-cli-")
             try:
                 inp, outp = os.path.join(d, "in.ini"), os.path.join(d, "out.dat")
                 with open(inp, "w") as f:
                     f.write(text)
+                if preexisting is not None:
+                    with open(outp, "w") as f:
+                        f.write(preexisting)
                 status, so, se = run_cli([inp, outp])
                 res["status"], res["stderr"] = status, se[-400:]
                 if status != 0:
@@ -680,6 +700,9 @@ def cmp_excel(c, plan, data):
             c.fail("first-column", "sheet %s first column is %r, expected %r" % (sh["name"], ws["heads"][:1], sh["first"]))
             continue
         for k, v in enumerate(first):
+            if not isinstance(v, (int, float)):
+                c.fail("first-column", "sheet %s row %d: %s cell holds %r" % (sh["name"], k, sh["first"], v))
+                break
             if not c.num("first-column", repr(float(v)), ctx.x(sh["grid"], k), what="%s row %d %s" % (sh["name"], k, sh["first"])):
                 break
         for col in sh["cols"]:
@@ -701,6 +724,9 @@ def cmp_excel(c, plan, data):
             d1 = p.deriv()
             for k, v in enumerate(vals):
                 x = ctx.x(sh["grid"], k)
+                if not isinstance(v, (int, float)):
+                    c.fail("cell", "%s!%s row %d holds %r, not a number" % (sh["name"], found[0], k, v))
+                    break
                 if not c.num("cell", repr(float(v)), p(x), p.absval(x) + abs(x * d1(x)), what="%s!%s row %d at %s" % (sh["name"], found[0], k, x)):
                     break
         # no extra labelled columns carrying a function the model does not have
@@ -751,17 +777,27 @@ _SEED = 0
 
 def _replay_one(job):
     """worker: one case through all its routes. Returns list of result dicts (small)."""
-    idx, routes = job
+    idx, routes, variant = job
     case = _CASES[idx]
     out = []
-    ctx = Ctx(case, idx, _SEED)
+    ctx = Ctx(case, idx, _SEED, variant)
+    if case["m"]["nr"] >= 1000:
+        routes = [r for r in routes if r in ("class", "cli")]
+    if idx % 3 == 0 and not case["rejects"]:
+        # history prelude: an earlier tabulation of the same model in this process failed part-way (C12/C17 interplay);
+        # the replay that follows must be unaffected
+        try:
+            cnt = Counter(1 + idx % 7)
+            make_writer(ctx, ROUTES[case["m"]["tgt"]][0], cnt)(Sink(case["m"]["tgt"] in BINARY))
+        except Exception:
+            pass
     for route in routes:
         spellings = [None]
         if route in ("ini", "cli") and case["m"]["tgt"] in INI_TARGETS:
             sp = INI_TARGETS[case["m"]["tgt"]]
             spellings = [sp[idx % len(sp)]]
         for spelling in spellings:
-            r = dict(idx=idx, route=route, spelling=spelling, bad=[], cells=0, evals=0, outcome=None)
+            r = dict(idx=idx, route=route, spelling=spelling, bad=[], cells=0, evals=0, outcome=None, variant=variant)
             try:
                 res = execute(ctx, route, 0, spelling)
                 r["outcome"] = res["outcome"]
@@ -817,7 +853,8 @@ def run_property(run, prop, tier, seed, max_jobs=None):
     _CASES = allc
     _INDEX = {case_key(c["m"]): c for c in allc}
     _SEED = seed
-    jobs = [(i, ROUTES[c["m"]["tgt"]]) for i, c in enumerate(allc) if c["m"]["tgt"] in conf["targets"]]
+    jobs = [(i, ROUTES[c["m"]["tgt"]], v) for i, c in enumerate(allc) if c["m"]["tgt"] in conf["targets"]
+            for v in (range(5) if c["m"]["nr"] >= 1000 else range(1))]
     total = len(jobs)
     if max_jobs and len(jobs) > max_jobs:
         rnd = random.Random(seed)
@@ -842,7 +879,7 @@ def run_property(run, prop, tier, seed, max_jobs=None):
             blocks = len(m["pots"]) + len(m["els"])
             if blocks >= 2:
                 run.distinct([case_key(m), r["route"]])
-            ctx = Ctx(case, r["idx"], seed)
+            ctx = Ctx(case, r["idx"], seed, r.get("variant", 0))
             if len(run.samples) < 4 and blocks >= 2 and r["idx"] % 7 == 3:
                 run.sample(dict(model=m, route=r["route"], rendering=ctx.describe(), outcome=r["outcome"], cells_compared=r["cells"]))
             for clause, msg in r["bad"][:1]:
@@ -869,3 +906,170 @@ def main(prop, tier, seed):
     except tlc.TLCError as e:
         run.machinery(str(e))
     return run.finish()
+
+
+# ------------------------------------------------------------------------------------------------ C17: faults
+FAULT_CONFIGS = dict(
+    quick=["Layout_fault_pair", "Layout_fault_eam", "Layout_fault_fs", "Layout_fault_adp", "Layout_fault_funcfl"],
+    thorough=["Layout_fault_pair", "Layout_fault_eam", "Layout_fault_fs", "Layout_fault_adp", "Layout_fault_funcfl"])
+API_ROUTES = ("class", "wp", "func")
+
+
+def _slots(case):
+    """(fn, grid, k0, n) of every non-zero function group of the plan, once per function"""
+    seen, out = set(), []
+
+    def add(fn, grid, k0, n):
+        if fn["f"] != "zero" and fnkey(fn) not in seen:
+            seen.add(fnkey(fn))
+            out.append((fn, grid, k0, n))
+    for r in case["plan"]:
+        if r["t"] in ("cells",):
+            add(r["fn"], r["grid"], r["k0"], r["n"])
+        elif r["t"] in ("rows", "grows", "recs"):
+            add(r["fn"], "r", r["k0"], r["n"])
+        elif r["t"] == "sheet":
+            for col in r["cols"]:
+                add(col["fn"], r["grid"], 0, r["n"])
+    return out
+
+
+def _fault_one(idx):
+    case = _CASES[idx]
+    m = case["m"]
+    ctx = Ctx(case, idx, _SEED)
+    ctx.flavour = "analytic"
+    tgt = m["tgt"]
+    binary = tgt in BINARY
+    out = dict(idx=idx, bad=[], runs=0, ks=0, n_measured={}, machinery=None)
+    if case["rejects"]:
+        return out
+
+    def bad(route, clause, msg, extra=None):
+        if len(out["bad"]) < 6:
+            out["bad"].append((route, clause, msg, extra))
+    try:
+        for route in ROUTES[tgt]:
+            if route not in API_ROUTES:
+                continue
+            counter = Counter(0)
+            w = make_writer(ctx, route, counter)
+            w(Sink(binary))
+            N = counter.n
+            out["n_measured"][route] = N
+            for k in range(1, N + 1):
+                counter = Counter(k)
+                w = make_writer(ctx, route, counter)
+                sink = Sink(binary)
+                raised = False
+                try:
+                    w(sink)
+                except Exception as e:
+                    raised = True
+                out["runs"] += 1
+                out["ks"] += 1
+                if not raised:
+                    bad(route, "fault-swallowed", "evaluation %d of %d raised but write() returned normally" % (k, N))
+                if sink.value():
+                    bad(route, "partial-output", "evaluation %d of %d failed and %d characters in %d write(s) had already reached the file object" % (
+                        k, N, len(sink.value()), len(sink.writes)), dict(k=k, N=N))
+                # the same tabulation object is written again, this time without a fault: whole table or nothing
+                counter.fail_at = 0
+                sink2 = Sink(binary)
+                try:
+                    w(sink2)
+                except Exception:
+                    if sink2.value():
+                        bad(route, "partial-output", "second write() after a failure at evaluation %d raised and left %d characters" % (k, len(sink2.value())))
+                    continue
+                out["runs"] += 1
+                c = compare(ctx, route, dict(data=sink2.value()), _INDEX)
+                if c.bad:
+                    bad(route, "retry-not-whole", "write() after a failed write() (evaluation %d of %d) returned normally but did not emit the whole table: %s" % (k, N, c.bad[0][1]), dict(k=k, N=N))
+        # potable routes: a formula that leaves its domain at a chosen grid index of a chosen function
+        for fn, grid, k0, n in _slots(case):
+            for i in sorted(set([k0, k0 + n // 2, k0 + n - 1])):
+                step = ctx.x(grid, 1) - ctx.x(grid, 0)
+                lim = ctx.x(grid, i) - step / 2
+                for route in ("ini", "cli"):
+                    if route not in ROUTES[tgt]:
+                        continue
+                    res = execute(ctx, route, bad=(fn, lim), preexisting="OLD TABLE\n" if route == "cli" else None)
+                    out["runs"] += 1
+                    out["ks"] += 1
+                    where = "%s at grid index %d" % (fnkey(fn), i)
+                    if res["outcome"] != "raised":
+                        bad(route, "fault-swallowed", "formula outside its domain (%s) but the run ended normally" % where, dict(ini=res.get("ini")))
+                    elif res["data"]:
+                        bad(route, "partial-output", "formula outside its domain (%s): %s, and the output holds %d characters" % (
+                            where, res["exc"], len(res["data"])), dict(ini=res.get("ini")))
+    except Exception:
+        import traceback
+        out["machinery"] = traceback.format_exc()[-1500:]
+    return out
+
+
+def main_c17(tier, seed):
+    global _CASES, _INDEX, _SEED
+    import multiprocessing as mp
+    from lib.harness import Run
+    run = Run("C17", tier, seed)
+    run.assumptions = ["a failing evaluation is modelled as an exception raised by the k-th call of a user function (energy or derivative); zero-filled slots cannot fail",
+                       "evaluation ORDER carries no obligation; k ranges over the number of evaluations measured on the fault-free run"]
+    try:
+        targets = set(ROUTES)
+        allc, _ = load_cases(run, FAULT_CONFIGS[tier], targets)
+        if not run.machinery_errors:
+            _CASES, _SEED = allc, seed
+            _INDEX = {case_key(c["m"]): c for c in allc}
+            jobs = list(range(len(allc)))
+            if tier == "quick":
+                # every target, every model up to a cap per target (seeded), every k of each chosen model
+                rnd = random.Random(seed)
+                by = {}
+                for i in jobs:
+                    by.setdefault(allc[i]["m"]["tgt"], []).append(i)
+                jobs = []
+                for t, lst in sorted(by.items()):
+                    rnd.shuffle(lst)
+                    jobs += sorted(lst[:40])
+                run.exhaustive = False
+                run.notes["replay_sampled"] = "<= 40 models per target (seeded), every failing position k of each"
+            with mp.Pool(min(16, os.cpu_count() or 1)) as pool:
+                results = pool.map(_fault_one, jobs, chunksize=4)
+            agree = disagree = 0
+            for r in results:
+                case = allc[r["idx"]]
+                m = case["m"]
+                if r["machinery"]:
+                    run.machinery("fault replay of case %d: %s" % (r["idx"], r["machinery"]))
+                    continue
+                run.evaluations += r["runs"]
+                run.replayed += r["ks"]
+                for route, N in r["n_measured"].items():
+                    if N == case["totalEv"]:
+                        agree += 1
+                    else:
+                        disagree += 1
+                if r["ks"] >= 2:
+                    run.distinct(case_key(m))
+                if len(run.samples) < 4 and r["ks"] > 5:
+                    run.sample(dict(model=m, failing_positions_explored=r["ks"], evaluations_measured=r["n_measured"], spec_total_evaluations=case["totalEv"]))
+                for route, clause, msg, extra in r["bad"][:2]:
+                    sig = dict(engine="layout", target=m["tgt"], clause=clause, route=route)
+                    run.violation(sig, "%s via %s: [%s] %s" % (m["tgt"], route, clause, msg), dict(case=case, idx=r["idx"], route=route, extra=extra))
+            run.notes["eval_count_agrees_with_spec"] = dict(agree=agree, disagree=disagree)
+            run.rule = ("cases = models of the fault configurations x every failing evaluation position k (API routes: k = 1..N measured; potable routes: "
+                        "every function slot x first/middle/last grid index); non-trivial = model with >= 2 failing positions; distinct by model")
+    except tlc.TLCError as e:
+        run.machinery(str(e))
+    return run.finish()
+
+
+_main_layout = main
+
+
+def main(prop, tier, seed):     # noqa: F811
+    if prop == "C17":
+        return main_c17(tier, seed)
+    return _main_layout(prop, tier, seed)
